@@ -26,6 +26,12 @@ FILES = {
                 "def helper(v):\n" + FLOW % (6, 6) + "    return v\n\n"
                 "t7 = source()\nsink(t7)\n",
     "c.js": "function main1(p) {\n    return p;\n}\nvar z = main1(1);\n",
+    # two units with the same file name in different directories (told apart by unit_path only)
+    "api/views.py": "def index(p):\n" + FLOW % (8, 8) + "    return p\n",
+    "admin/views.py": "def index(p):\n" + FLOW % (9, 9) + "    return p\n",
+    # four entries whose call chains converge on one call site two levels down; the source is in the entry, the sink in the deepest callee
+    "conv.py": "def deep(v):\n    sink(v)\n    return v\n\ndef shared(v):\n    return deep(v)\n\n"
+               + "".join("def e%d(p):\n    s%d = source()\n    return shared(s%d)\n\n" % (i, i, i) for i in (1, 2, 3, 4)),
 }
 # rule pool; every field is optional as in entry.yaml
 POOL = [
@@ -39,14 +45,19 @@ POOL = [
     {"lang": "javascript"},
     {"unit_name": "zzz.py", "method_list": ["main1"]},
     {"lang": "python", "unit_name": "a.py", "method_list": ["helper", "nosuch"]},
+    {"unit_path": "admin/", "method_list": ["index"]},
+    {"unit_name": "views.py", "unit_path": "api/", "method_list": ["index"]},
+    {"method_list": ["e1", "e2", "e3", "e4"]},
+    {"unit_name": "conv.py", "method_list": ["e2", "e4", "shared"]},
 ]
 SETTINGS = {
     "source.yaml": "- lang: python\n  rules:\n    - operation: call_stmt\n      name: source\n      tag: [\"%target\"]\n",
     "sink.yaml": "- lang: python\n  rules:\n    - operation: call_stmt\n      name: sink\n      target: [\\%arg0]\n      vuln_type: generic\n",
     "propagation.yaml": "[]\n",
 }
-CALLS = {"a.py:main1": ["a.py:helper"]}
-NO_FLOW = {"c.js:main1", "c.js:%unit_init"}
+CALLS = {"a.py:main1": ["a.py:helper"], "conv.py:shared": ["conv.py:deep"]}
+CALLS.update({"conv.py:e%d" % i: ["conv.py:shared"] for i in (1, 2, 3, 4)})
+NO_FLOW = {"c.js:main1", "c.js:%unit_init", "api/views.py:%unit_init", "admin/views.py:%unit_init", "conv.py:%unit_init", "conv.py:deep", "conv.py:shared"}
 
 
 def yaml_of(rules):
@@ -64,7 +75,7 @@ def yaml_of(rules):
 def subsets(tier, seed):
     n = len(POOL)
     alls = [list(s) for k in range(0, n + 1) for s in itertools.combinations(range(1, n + 1), k)]
-    core = [s for s in alls if len(s) <= 1] + [[1, 2], [3, 6], [4, 5], [2, 7], list(range(1, n + 1))]
+    core = [s for s in alls if len(s) <= 1] + [[1, 2], [3, 6], [4, 5], [2, 7], [11, 12], [1, 13], [13, 14], [1, 11, 13], list(range(1, n + 1))]
     if tier == "thorough":
         rest = [s for s in alls if s not in core and len(s) <= 3]
         big = random.Random(0).sample([s for s in alls if len(s) > 3], 120)
@@ -137,7 +148,7 @@ def run(tier, seed):
         runs.append({"name": name, "rules": job["_rules"], "entry_points": sorted(set(ep)), "started": sorted(set(started)), "flow_methods": flows})
     tf = os.path.join(root, "runs.json")
     with open(tf, "w") as f:
-        json.dump({"project": project, "runs": runs}, f)
+        json.dump({"project": project, "runs": runs, "maxr": 3 if tier == "quick" else 5}, f)
     r = C.tlc("EntryPoints", "EntryPoints.cfg", env={"TRACE_FILE": tf}, workers=4, timeout=1800)
     n_bad = 0
     if r.error or r.violation:
@@ -156,7 +167,7 @@ def run(tier, seed):
     rc = v.finish()
     cov = {
         "states": r.distinct, "transitions": r.generated, "traces_validated_against_impl": len(runs),
-        "samples": runs[:3], "rule_pool": POOL, "rule_subsets_run": len(subs), "rule_subsets_in_model": 2 ** len(POOL),
+        "samples": runs[:3], "rule_pool": POOL, "rule_subsets_run": len(subs), "rule_subsets_in_model": sum(1 for k in range(0, (3 if tier == "quick" else 5) + 1) for _ in itertools.combinations(range(len(POOL)), k)),
         "violating_runs": n_bad, "known_findings_hit": {k: len(x) for k, x in v.hits.items()}, "repo": C.repo_head(), "exhaustive": False,
         "rule": "model: every subset of the rule pool through the scan/start model vs Selected(); traces: one full lian run per rule subset on a "
                 "3-file two-language project with a local source->sink flow in every python method",
